@@ -47,6 +47,30 @@ def anchors():
             su.NetstringSocket.read_ns, su.NetstringSocket.write_ns]
 
 
+# The clock functions of the time module itself are wrapped BEFORE boltons.socketutils is imported, so that code which
+# binds them at import time (`_now = time.monotonic`, `from time import time`) also reads the virtual clock while a case
+# is running; outside a case the wrappers pass through to the real functions.
+import time as _time_mod
+_REAL_CLOCKS = {}
+ACTIVE_CLOCK = [None]
+
+
+def _install_clock_wrappers():
+    if _REAL_CLOCKS:
+        return
+    for n in ('time', 'monotonic', 'perf_counter', 'time_ns', 'monotonic_ns'):
+        _REAL_CLOCKS[n] = getattr(_time_mod, n)
+
+        def wrapper(n=n):
+            c = ACTIVE_CLOCK[0]
+            return getattr(c, n)() if c is not None else _REAL_CLOCKS[n]()
+        wrapper.__name__ = n
+        setattr(_time_mod, n, wrapper)
+
+
+_install_clock_wrappers()
+
+
 class Clock(object):
     def __init__(self):
         self.now = 1000.0
@@ -54,9 +78,21 @@ class Clock(object):
     def time(self):
         return self.now
 
+    # whichever clock the code reads, it is the virtual one
+    def monotonic(self):
+        return self.now
+
+    def perf_counter(self):
+        return self.now
+
+    def time_ns(self):
+        return int(self.now * 1e9)
+
+    def monotonic_ns(self):
+        return int(self.now * 1e9)
+
     def __getattr__(self, name):
-        import time as _t
-        return getattr(_t, name)
+        return _REAL_CLOCKS.get(name) or getattr(_time_mod, name)
 
 
 class ScriptedSocket(object):
@@ -175,6 +211,7 @@ def check_recv(c, st):
     sock.full = bool(c.get('full_socket'))
     real_time = su.time
     su.time = clock
+    ACTIVE_CLOCK[0] = clock
     try:
         bs = su.BufferedSocket(sock, timeout=c['timeout'], maxsize=c.get('maxsize', 32768),
                                recvsize=c['recvsize'])
@@ -278,14 +315,21 @@ def check_recv(c, st):
         return None
     finally:
         su.time = real_time
+        ACTIVE_CLOCK[0] = None
 
 
 def check_send(c, st):
     su = common.load('socketutils')
     clock = Clock()
+    if c.get('big'):
+        # megabytes pushed through one send() by partial sends, then a fault: the case is stored as parameters
+        c = dict(c, calls=[[b[0], ('0123456789abcdef' * (b[1] // 16 + 1))[:b[1]]] if b[0] != 'flush' else ['flush']
+                           for b in c['big']])
+        st.count('big_send_cases')
     sock = ScriptedSocket([], clock, c['send_script'])
     real_time = su.time
     su.time = clock
+    ACTIVE_CLOCK[0] = clock
     try:
         bs = su.BufferedSocket(sock, timeout=c['timeout'])
         handed = b''
@@ -324,7 +368,8 @@ def check_send(c, st):
             if have != handed:
                 return ('send-conservation:' + call[0] + (':timeout' if timed_out else ''),
                         'handed %r but peer got %r + send buffer %r (case %r)'
-                        % (handed, bytes(sock.peer), bs.getsendbuffer(), c))
+                        % (handed[:60], bytes(sock.peer)[:60], bs.getsendbuffer()[:60], repr(c)[:600])
+                        + ' [lengths %d vs %d + %d]' % (len(handed), len(sock.peer), len(bs.getsendbuffer())))
             if not timed_out and call[0] in ('send', 'sendall', 'flush') and bs.getsendbuffer():
                 return ('send-incomplete:' + call[0], '%s returned with %r still buffered (case %r)'
                         % (call[0], bs.getsendbuffer(), c))
@@ -337,8 +382,8 @@ def check_send(c, st):
                 continue
         st.monitor_evals += 1
         if bytes(sock.peer) != handed:
-            return ('send-lost-or-duplicated', 'peer received %r, caller handed %r (case %r)'
-                    % (bytes(sock.peer), handed, c))
+            return ('send-lost-or-duplicated', 'peer received %r (%d bytes), caller handed %r (%d bytes) (case %r)'
+                    % (bytes(sock.peer)[:60], len(sock.peer), handed[:60], len(handed), repr(c)[:600]))
         if any(isinstance(x, list) for x in c['send_script']):
             st.count('send_cases_with_slow_transport')
         if any(x in ('timeout', 'error') for x in c['send_script'] if isinstance(x, str)) or any(isinstance(x, (int, list)) for x in c['send_script']):
@@ -347,6 +392,7 @@ def check_send(c, st):
         return None
     finally:
         su.time = real_time
+        ACTIVE_CLOCK[0] = None
 
 
 def check_ns(c, st):
@@ -355,6 +401,7 @@ def check_ns(c, st):
     payloads = [p.encode('latin-1') for p in c['payloads']]
     wsock = ScriptedSocket([], clock, c['send_script'])
     w = su.NetstringSocket(wsock, maxsize=c.get('maxsize', 32768))
+    inst_max = c.get('reader_maxsize', c.get('maxsize', 32768))
     try:
         for p in payloads:
             w.write_ns(p)
@@ -370,7 +417,7 @@ def check_ns(c, st):
     if pos < len(wire):
         script.append(['data', wire[pos:].decode('latin-1'), 0])
     rsock = ScriptedSocket(script, clock)
-    r = su.NetstringSocket(rsock, maxsize=c.get('maxsize', 32768))
+    r = su.NetstringSocket(rsock, maxsize=inst_max)     # may be smaller than what each read_ns() call allows
     r.bsock._recvsize = c['recvsize']
     if c.get('setmaxsize'):
         r.setmaxsize(c['maxsize'])
@@ -378,7 +425,7 @@ def check_ns(c, st):
     for _ in payloads:
         st.monitor_evals += 1
         try:
-            got.append(r.read_ns(maxsize=c['maxsize']) if c.get('explicit_maxsize') else r.read_ns())
+            got.append(r.read_ns(maxsize=c['maxsize']) if (c.get('explicit_maxsize') or 'reader_maxsize' in c) else r.read_ns())
         except Exception as e:
             return ('netstring-read-raised:%s' % type(e).__name__,
                     'read_ns raised %r after %d payloads; wire %r (case %r)' % (e, len(got), wire[:80], c))
@@ -535,6 +582,15 @@ def gen(r):
                      for cl in calls]
         return {'kind': 'recv', 'stream': stream, 'script': script, 'timeout': timeout,
                 'recvsize': r.choice([1, 2, 3, 4, 8, 64, 4096]), 'calls': calls, 'full_socket': r.random() < 0.3}
+    if 0.865 < x < 0.87:
+        # 1.5-5 MB handed to one send/sendall/buffer+flush, accepted in pieces of 50-400 KB, with a fault late in it
+        n = r.choice([1500000, 3 * 2 ** 20, 2 ** 20 + 1, 5000000])
+        ss = []
+        for _ in range(r.randint(3, 14)):
+            ss.append(r.choice([65536, 200000, 409600, 2 ** 20]))
+        ss.insert(r.randint(3, len(ss)), r.choice(['timeout', 'error', ['slow', 100000, 6.0]]))
+        big = [[r.choice(['send', 'sendall']), n]] if r.random() < 0.6 else [['buffer', n // 2], ['buffer', n - n // 2], ['flush']]
+        return {'kind': 'send', 'big': big + [['flush']], 'calls': [], 'send_script': ss + [2 ** 20] * 3, 'timeout': 5.0}
     if x < 0.87:
         calls = []
         for _ in range(r.randint(1, 8)):
@@ -548,7 +604,11 @@ def gen(r):
     maxsize = r.choice([32768, 32768, 1000, 100, 10, 9])
     payloads = [rbytes(r, min(maxsize, r.choice([0, 0, 1, 2, 5, 9, 10, 11, 99, 100, 101, 300, 1000])),
                        b',:0123456789ab\n') for _ in range(r.randint(1, 5))]
-    return {'kind': 'ns', 'payloads': payloads, 'maxsize': maxsize, 'explicit_maxsize': r.random() < 0.3,
+    extra = {}
+    if r.random() < 0.25:
+        # the reader object was made with a small limit; every read_ns() call passes the real one
+        extra['reader_maxsize'] = r.choice([1, 5, 9, 10, 99, max(1, maxsize // 10 - 1)])
+    return {**extra, 'kind': 'ns', 'payloads': payloads, 'maxsize': maxsize, 'explicit_maxsize': r.random() < 0.3,
             'setmaxsize': r.random() < 0.2, 'send_script': [r.choice([1, 3, 7, 1000]) for _ in range(r.randint(0, 10))],
             'chunks': [r.choice([1, 1, 2, 3, 5, 30, 1000]) for _ in range(400)], 'recvsize': r.choice([1, 2, 5, 4096, 32768])}
 
